@@ -52,8 +52,10 @@ def callable_token(comp: str, j: int, kind: str, ntab: int = 0) -> str:
         return "o:Anon"
     if kind == "partial":           # functools.partial: no name, no __name__
         return "o:partial"
-    if kind == "table":             # a real LookupTable: named after the number of tables built before it
+    if kind in ("table", "stable"):  # a real LookupTable: named after the number of tables built before it
         return f"n:lookup_table_{ntab}"
+    if kind == "sfunc":             # ONE function object per component, handed to several registrations
+        return f"f:fnS_{comp}"
     return "p:" + kind[5:]          # "pipe:<key>"
 
 
@@ -63,7 +65,7 @@ def flatten(case, order):
     Component-level initializer (`Component.setup_component`). `rate` (register_rate_producer) is a source,
     `stepmod` (builder.time.register_step_size_modifier) a modifier of `simulant_step_size`. The edge-set
     comparison validates this reading on every run."""
-    regs, ntab = [], 0
+    regs, ntab, shared_tab = [], 0, {}
     for ci in order:
         c = case["comps"][ci]
         n = c["name"]
@@ -79,7 +81,13 @@ def flatten(case, order):
             elif k in ("src", "mod"):
                 if op[2].startswith("pipe:"):
                     regs.append({"op": "getv", "key": op[2][5:]})
-                regs.append({"op": k, "key": op[1], "label": f"{n}.{k}{j}", "callable": callable_token(n, j, op[2], ntab),
+                tab = ntab
+                if op[2] == "stable":       # the component's one shared table: built at its first use
+                    if n not in shared_tab:
+                        shared_tab[n] = ntab
+                        ntab += 1
+                    tab = shared_tab[n]
+                regs.append({"op": k, "key": op[1], "label": f"{n}.{k}{j}", "callable": callable_token(n, j, op[2], tab),
                              "rc": op[3], "rv": op[4], "rs": op[5]})
                 ntab += op[2] == "table"
             elif k == "getv":
@@ -92,6 +100,18 @@ def flatten(case, order):
         if h is not None:
             regs.append({"op": "init", "comp": n, "label": n, "creates": h["creates"], "rc": h["rc"], "rv": h["rv"], "rs": h["rs"]})
     return regs
+
+
+def late_regs(case, order):
+    """`builder.resources.add_resources` calls made AFTER setup: from a component's post_setup listener (still before the
+    first sort: the code takes them into account) and from its first time_step__prepare listener (after the graph and the
+    order were cached: the code ignores them for good). Entries of `comp["late"]`: [when, type, names, deps]."""
+    post, step = [], []
+    for ci in order:
+        c = case["comps"][ci]
+        for j, (when, rtype, names, deps) in enumerate(c.get("late") or []):
+            (post if when == "post" else step).append({"op": "raw", "type": rtype, "names": names, "label": f"{c['name']}.late{j}", "deps": deps})
+    return post, step
 
 
 def birth_plan(case):
@@ -228,6 +248,7 @@ def analyse(regs, keys):
 # ------------------------------------------------------------------------------------------ real runs
 def _run_sim(case, order):
     impl.load()
+    import numpy as np
     import pandas as pd
     from vivarium import Component
     from vivarium.exceptions import VivariumError
@@ -245,12 +266,18 @@ def _run_sim(case, order):
         if view is not None and cols:
             view.update(pd.DataFrame({c: 1.0 for c in cols}, index=d.index))
 
+    SHARE = bool(case.get("share"))
+    memo = {}
+
     def seq(x, form):
-        """the container / call form the declaration is made in (the API takes a string or any sequence)"""
+        """the container / call form the declaration is made in (the API takes a string or any sequence); in `share`
+        mode equal declarations are made with THE SAME list object throughout one simulation"""
         if form == "tuple":
             return tuple(x)
         if form == "str" and len(x) == 1:
             return x[0]
+        if SHARE:
+            return memo.setdefault(("list",) + tuple(x), list(x))
         return list(x)
 
     class Anon:
@@ -265,20 +292,46 @@ def _run_sim(case, order):
         def __init__(self, spec):
             super().__init__()
             self.spec = spec
+            self.shared = {}
+            self.late = []
 
         @property
         def name(self):
             return self.spec["name"]
+
+        def _late(self, when):
+            for w, rtype, names, deps, producer in self.late:
+                if w == when:
+                    self.builder_resources.add_resources(rtype, list(names), producer, list(deps))
+            self.late = [x for x in self.late if x[0] != when]
+
+        def on_post_setup(self, e):
+            self._late("post")
+
+        def on_time_step_prepare(self, e):
+            self._late("step")
 
         def _callable(self, b, j, kind, value=1.0):
             if kind.startswith("pipe:"):
                 return b.value.get_value(kind[5:])
             if kind == "table":
                 return b.lookup.build_table(1.0)
+            if kind == "stable":        # one table for all `stable` registrations of this component
+                if "stable" not in self.shared:
+                    self.shared["stable"] = b.lookup.build_table(1.0)
+                return self.shared["stable"]
+            if kind == "sfunc":         # one function object for all `sfunc` registrations of this component
+                if "sfunc" not in self.shared:
+                    def shared_fn(index, *a):
+                        return pd.Series(value, index=index)
+                    shared_fn.__name__ = f"fnS_{self.name}"
+                    self.shared["sfunc"] = shared_fn
+                return self.shared["sfunc"]
             if kind == "object":
-                return Anon(value)
+                return self.shared.setdefault(("object", str(value)), Anon(value)) if SHARE else Anon(value)
             if kind == "partial":
-                return functools.partial(lambda v, index, *a: pd.Series(v, index=index), value)
+                mk = lambda: functools.partial(lambda v, index, *a: pd.Series(v, index=index), value)   # noqa: E731
+                return self.shared.setdefault(("partial", str(value)), mk()) if SHARE else mk()
 
             def fn(index, *a):
                 return pd.Series(value, index=index)
@@ -301,6 +354,15 @@ def _run_sim(case, order):
             return Tbl(f"tbl{j}_{self.name}")
 
         def setup(self, b):
+            self.builder_resources = b.resources
+            for j, (when, rtype, names, deps) in enumerate(self.spec.get("late") or []):
+                label = f"{self.name}.late{j}"
+                view = b.population.get_view(list(names)) if (rtype == "column" and names) else None
+
+                def late_producer(d, label=label, names=names, view=view):
+                    record(label, d)
+                    write(view, names, d)
+                self.late.append((when, rtype, names, deps, late_producer))
             for j, op in enumerate(self.spec["setup"]):
                 k = op[0]
                 form = ["list", "tuple", "str"][(j + len(self.name)) % 3]
@@ -412,9 +474,12 @@ def _run_sim(case, order):
             if self.k < len(self.plan):
                 for p, cnt in self.plan[self.k]:
                     if p == ph:
+                        ref["sim"].get_population()                     # reads interleaved with creation
+                        before = len(ref["pm"].get_population(True))
                         LOG.append(["#", cnt])
-                        idx = self.creator(cnt, {"sim_state": "birth"}) if p % 2 else self.creator(cnt)
+                        idx = self.creator(np.int64(cnt), {"sim_state": "birth"}) if p % 2 else self.creator(cnt)
                         LOG.append(["#ret", [int(i) for i in idx]])
+                        LOG.append(["#len", before, len(ref["pm"].get_population(True)), len(self.tracked.get(idx))])
             if ph == 3:
                 self.k += 1
 
@@ -452,6 +517,7 @@ def _run_sim(case, order):
                                 configuration={"population": {"population_size": case["pop"]},
                                                "randomness": {"key_columns": list(case["keys"])}})
         ref["pm"] = sim._population
+        ref["sim"] = sim
         phase = "setup"
         sim.setup()
         phase = "create"
@@ -477,6 +543,8 @@ def _run_sim(case, order):
             creations.append({"count": ent[1], "calls": [], "ret": None})
         elif ent[0] == "#ret":
             creations[-1]["ret"] = ent[1]
+        elif ent[0] == "#len":
+            creations[-1]["len"] = ent[1:]
         else:
             creations[-1]["calls"].append(ent)
     out["creations"] = creations
@@ -702,6 +770,18 @@ def gen_dag(rng, n_init=None, n_pipe=None, n_strm=None, raw_ok=True):
         rng.choice(comps)["setup"].append(["getv", rng.choice([pname(v) for v in pipes] + ["vg0", "vg1"])])
     if rng.random() < 0.1:
         _add_req(rng.choice(list(by_init.values())), "rv", rng.choice(["vg0", "vg1"]))
+    # registrations made after setup: in post_setup (still counted) and during the first step (too late: order is cached)
+    allcols = [c for cs in cols.values() for c in cs]
+    for k in range(rng.choice([0, 0, 0, 1, 2])):
+        when = rng.choice(["post", "step"])
+        deps = ["column." + c for c in rng.sample(allcols, min(len(allcols), rng.randint(0, 2)))]
+        if rng.random() < 0.5:
+            names, rtype = [], rng.choice(["column", "stream"])
+        else:
+            names, rtype = [f"l{when[0]}{k}" if when == "post" or rng.random() < 0.5 else "zz_nocol"], "column"
+        if names == ["zz_nocol"] and any(x.get("late") and any(l[2] == names for l in x["late"]) for x in comps):
+            names = [f"ls{k}"]
+        rng.choice(comps).setdefault("late", []).append([when, rtype, names, deps])
     # the initializer op of an explicit component goes to a random place among its setup ops
     for c in comps:
         rng.shuffle(c["setup"])
@@ -812,7 +892,8 @@ def inject_dup(rng, case, kind):
     return case
 
 
-ADV = ["mod", "src", "stream", "srcpipe", "modpipe", "deepvalues", "unsourced", "stepmod", "rate", "tablemod", "objmod"]
+ADV = ["mod", "src", "stream", "srcpipe", "modpipe", "deepvalues", "unsourced", "stepmod", "rate", "tablemod", "objmod",
+       "sharedsrc", "sharedmod", "sharedtable"]
 
 
 def gen_adversarial(rng, kind, depth=None, null_consumer=None, explicit=None):
@@ -852,6 +933,15 @@ def gen_adversarial(rng, kind, depth=None, null_consumer=None, explicit=None):
     elif kind == "objmod":        # the modifier is a callable object / functools.partial (no name at all)
         comps.append(_comp("PV", None, [["src", "v", "partial", [], [], []]]))
         comps.append(_comp("PM", None, [["mod", "v", rng.choice(["object", "partial"]), hot(), [], []]]))
+        rv = ["v"]
+    elif kind == "sharedsrc":     # ONE function object is the source of two pipelines; only the second registration needs z
+        comps.append(_comp("PV", None, [["src", "u", "sfunc", [], [], []], [rng.choice(["src", "rate"]), "v", "sfunc", hot(), [], []]]))
+        rv = ["v"]
+    elif kind == "sharedmod":     # ONE function object modifies v twice; only the second registration needs z
+        comps.append(_comp("PV", None, [["src", "v", "func", [], [], []], ["mod", "v", "sfunc", [], [], []], ["mod", "v", "sfunc", hot(), [], []]]))
+        rv = ["v"]
+    elif kind == "sharedtable":   # ONE LookupTable is the source of u and a modifier of v; only the second needs z
+        comps.append(_comp("PV", None, [["src", "u", "stable", [], [], []], ["src", "v", "func", [], [], []], ["mod", "v", "stable", hot(), [], []]]))
         rv = ["v"]
     elif kind == "stream":
         keys = hot("zz_nokey")
@@ -935,6 +1025,13 @@ def gen_bare(rng, tier):
         made += [(t, x) for x in ns]
         if rng.random() < 0.06:
             ops.append([rng.choice(["graph", "iter"])])
+        if rng.random() < 0.12:     # an earlier registration once more, verbatim, after the ones in between
+            old = rng.choice([o for o in ops if o[0] == "add"])
+            if old[2]:
+                ops.append(list(old))
+            else:                   # (a producer of nothing is a new group every time: give it its own label)
+                ops.append(["add", old[1], [], f"p{label}", list(old[4])])
+                label += 1
     ops.append(["graph"])
     ops.append(["iter"])
     if rng.random() < 0.3:
@@ -1016,6 +1113,18 @@ class C09(Prop):
                                      ["mod", "v", "table", ["b", "b"], [], []]]),
                               _comp("T", dict(_hook(["t"], rc=["a"]), form="tuple"))],
                     "orders": [[0, 1, 2, 3, 4], [4, 3, 2, 1, 0], [3, 0, 4, 2, 1]]})
+        # registrations after setup: in post_setup (counted) and during the first step (the order is cached: ignored, even
+        # though one of them would provide a requirement that was unmet and the other would close a cycle); shared list and
+        # callable objects; the same simulation run a second time at the end
+        out.append({"kind": "sim", "keys": [], "pop": 1, "why": "late", "share": True,
+                    "births": [[[0, 1], [2, 0]], [[1, 2]]],
+                    "comps": [dict(_comp("A", _hook(["a"], rc=["zz_nocol", "b"])), late=[["step", "column", ["zz_nocol"], ["column.a"]]]),
+                              dict(_comp("B", None, [["init", ["b"], [], [], [], "sparse"], ["src", "u", "sfunc", [], [], []],
+                                                     ["src", "v", "sfunc", ["b"], [], []]]),
+                                   late=[["post", "column", ["lp"], ["column.a"]], ["post", "stream", [], ["column.lp", "value.v"]],
+                                         ["step", "stream", [], ["column.a"]]]),
+                              _comp("C", _hook(["c"], rv=["v"]))],
+                    "orders": _orders(rng, 3, "quick") + [[0, 1, 2]]})
         # the finding, both kinds, all permutations
         for w in ("src", "mod"):
             c = gen_finding(random.Random(5), w)
@@ -1058,6 +1167,9 @@ class C09(Prop):
             c["untrack"] = rng.random() < 0.3
         if rng.random() < 0.3:      # supplied as sub-components of a parent (flat or nested lists / tuples)
             c["shape"] = {"span": [rng.randrange(8), rng.randrange(9)], "nested": rng.random() < 0.5}
+        c["share"] = rng.random() < 0.35    # equal declarations made with the same list / callable object
+        if rng.random() < 0.5:      # the exact same simulation once more, after the others (state left behind in the process?)
+            c["orders"] = c["orders"] + [list(c["orders"][0])]
         return c
 
     def shrink(self, case):
@@ -1115,7 +1227,11 @@ class C09(Prop):
             P.append((f"sim new {L(case['keys'])} {CLOCK}", ("new", r)))
             P += [(render(reg), ("reg", r)) for reg in flatten(case, order)]
             P.append(("post", ("reg", r)))
-            P.append(("outcome", ("outcome", r)))
+            late_post, late_step = late_regs(case, order)
+            P += [(render(reg), ("reg", r)) for reg in late_post]       # component post_setup listeners run after the values manager's
+            P.append(("outcome", ("outcome", r)))                       # first access: the graph is cached from here on
+            if birth_plan(case):
+                P += [(render(reg), ("reg", r)) for reg in late_step]   # registered during the first step: too late, ignored
             if run["graph"] is not None and "error" not in run["graph"]:
                 P += [("nodes", ("nodes", r)), ("edges", ("edges", r))]
             seen = []
@@ -1214,7 +1330,9 @@ class C09(Prop):
         return fails
 
     def _oracle_run(self, case, order, run):
-        A = analyse(PRELUDE + flatten(case, order), case["keys"])
+        late_post, late_step = late_regs(case, order)
+        A = analyse(PRELUDE + flatten(case, order) + late_post, case["keys"])
+        dontcare = {r["label"] for r in late_step}      # registered after the order was fixed: the property is silent
         if A["badtype"]:
             return []
         f = []
@@ -1230,13 +1348,17 @@ class C09(Prop):
                                                                 f"{ncalls} initializer calls: {[c[0] for cr in run['creations'] for c in cr['calls']][:12]}"})
             return f
         if err is not None:
-            # a valid program: the only error the property tolerates is a refusal before anything ran
+            # a valid program (no cycle, no duplicate producer) must create its simulants
             last = run["creations"][-1] if run["creations"] else None
             if last is not None and last["calls"]:
                 f.append({"sig": "partial-creation", "msg": f"{where}: {err} after {[c[0] for c in last['calls']]} had run"})
             elif err[0] == "birth" or (err[0] == "create" and err[1] != "ResourceError"):
                 f.append({"sig": "creation-failed", "msg": f"{where}: valid declarations, yet creating simulants raised {err} "
                                                             f"(creation #{len(run['creations']) - 1}) before the probe initializers were called"})
+            elif not A["double_init"]:
+                # e.g. state left over from an earlier registration / an earlier simulation of the same process
+                f.append({"sig": "valid-program-refused", "msg": f"{where}: the declarations contain neither a cycle nor two producers of "
+                                                                  f"one resource, yet the simulation refused with {err}"})
             return f
         probes = [t for t in A["inits"] if t not in (PM, CLOCK)]
         # the dependency graph the order is read from must contain a path producer -> consumer for every requirement
@@ -1259,20 +1381,27 @@ class C09(Prop):
                         return f
         total = 0
         for k, cr in enumerate(run["creations"]):
-            labels = [c[0] for c in cr["calls"]]
+            labels = [c[0] for c in cr["calls"] if c[0] not in dontcare]
             if sorted(labels) != sorted(probes):
                 f.append({"sig": "initializer-not-once", "msg": f"{where} creation {k}: called {labels}, registered {probes}"})
                 return f
             want = list(range(total, total + cr["count"]))
             total += cr["count"]
             for lab, idx, ready in cr["calls"]:
+                if lab in dontcare:
+                    continue
                 if idx != want:
                     f.append({"sig": "wrong-index", "msg": f"{where} creation {k}: {lab} received {idx}, new simulants are {want}"})
                     return f
             if cr["ret"] is not None and cr["ret"] != want:
                 f.append({"sig": "wrong-index", "msg": f"{where} creation {k}: creator returned {cr['ret']}, new simulants are {want}"})
+            if cr.get("len") is not None and (cr["len"][1] != total or cr["len"][0] != total - cr["count"]):
+                f.append({"sig": "wrong-index", "msg": f"{where} creation {k}: population had {cr['len'][0]} rows before and {cr['len'][1]} after "
+                                                       f"creating {cr['count']}; expected {total - cr['count']} and {total}"})
             pos = {lab: i for i, lab in enumerate(labels)}
             for lab, idx, ready in cr["calls"]:
+                if lab in dontcare:
+                    continue
                 for p in sorted(A["before"].get(lab, ())):
                     if p == PM:
                         if "tracked" not in ready:
@@ -1312,7 +1441,8 @@ class C09(Prop):
                         prod[x] = None
                     continue
                 if res[0] != "ok":
-                    continue
+                    f.append({"sig": "valid-registration-refused", "msg": f"op #{i} {op}: known type, every name free, yet refused with {res}"})
+                    return f
                 things[label] = {"deps": deps, "init": (not names) or t == "column"}
                 for x in long or []:
                     prod[x] = label
@@ -1420,6 +1550,15 @@ class C09(Prop):
                 t.append("birth-count:0" if cnt == 0 else "birth-count:1+")
         if case.get("untrack"):
             t.append("untracked-before-births")
+        if case.get("share"):
+            t.append("shared-containers-and-callables")
+        if len(case["orders"]) >= 2 and case["orders"][-1] == case["orders"][0]:
+            t.append("same-simulation-repeated")
+        for c in case["comps"]:
+            for l in c.get("late") or []:
+                t.append("late-registration:" + l[0])
+        if any(op[0] in ("src", "rate", "mod") and op[2] in ("sfunc", "stable") for c in case["comps"] for op in c["setup"]):
+            t.append("one-callable-two-registrations")
         if case.get("shape"):
             t.append("shape:sub-components" + ("-nested" if case["shape"].get("nested") else ""))
         if any(k in ("zz_nokey", "tracked") for k in case["keys"]):
